@@ -290,6 +290,9 @@ def witnesses(chk, P):
     j = un("function", "type(module_t) function f3()", [], "end function")
     regression("prefix-keyword-inside-type", "type(module_t) function f3()",
                not (j and j["attribs"] == [] and j["retvar"]["proto"] == ["module_t", ""]), j)
+    m = mv('integer(kind=kind("x")) f', 'character*(len("abc")) c', 'character(len=len("abc")) d', 'character(len("abc")) e')
+    regression("masked-literal-in-kind-selector", 'integer(kind=kind("x")) f / character*(len("abc")) c / character(len=len("abc")) d',
+               not (isinstance(m, dict) and m["f"]["kind"] == 'kind("x")' and m["c"]["strlen"] == m["d"]["strlen"] == m["e"]["strlen"] == 'len("abc")'), m)
     k = un("function", "double precision function f1()", [], "end function")
     regression("double-without-blank", "double precision function f1()", not (k and k["retvar"]["vartype"] == "double precision"), k)
 
